@@ -254,7 +254,8 @@ def gen_cases(tier):
     for d in bnd:
         v, _, _ = build(d)
         if len(v.tlv) - 2 < 128 and d[0] != "null" and len(v.tlv) >= 2 and v.tlv[1] < 0x80:
-            yield {"driver": "split", "cfg": v2c.describe(), "op": "get", "vals": [d + [{"form": 1}]] if d[0] in ("int", "u", "oct") else [d], "names": "seq", "outer_form": 1}
+            for form in (1, 2, 3, 4):
+                yield {"driver": "split", "cfg": v2c.describe(), "op": "get", "vals": [d + [{"form": form}]] if d[0] in ("int", "u", "oct") else [d], "names": "seq", "outer_form": form}
     # (b') RELATIVE-OID varbind names (library extension): chains of 1..3 relative names
     for c in gen_rel_cases(thorough):
         yield c
